@@ -205,6 +205,11 @@ def instrument(repo, rel, entries):
     path = os.path.join(repo, rel)
     src = open(path).read()
     tree = ast.parse(src, filename=rel)
+    try:
+        from translate.common import sink_branch_locals
+        sink_branch_locals(tree)          # the same behaviour-preserving normalisation T2 applies before it writes the plan
+    except ImportError:
+        pass
     ins = Instr(entries)
     tree = ins.visit(tree)
     ast.fix_missing_locations(tree)
